@@ -146,7 +146,7 @@ func init() {
 			ok2, _ := mustPrecede(flush, ws, w.callPred("store#BlockStore.saveState"))
 			c.Check(ok1 && ok2, fk+" :: base moved and persisted before the batch is written", w.ipos(ws), "bs.base = base; saveState(); batch.WriteSync()", "the batch can be written before the new base is persisted")
 		}
-		c.Check(c.ge().ensures(flush, guardRe("batch written", `^nil\(batch\.WriteSync\(\)\)$`), 0), fk+" :: flush reports batch write errors", w.pos(flush.Pos()), "nil only if WriteSync succeeded", "flush can succeed although the batch write failed")
+		c.Check(c.ge().ensures(flush, guardRe("batch written", `^nil\(batch\.WriteSync\(\)\)$`), 2), fk+" :: flush reports batch write errors", w.pos(flush.Pos()), "nil only if WriteSync succeeded", "flush can succeed although the batch write failed")
 		// arguments of the flush calls
 		n := 0
 		for _, call := range callInstrs(f) {
@@ -289,7 +289,7 @@ func init() {
 			c.Check(okP, fk+" :: keeps the record where the retained params last changed", w.pos(f.Pos()), "keep[paramsInfo(to).LastHeightChanged]", "the last-changed params record of the retain height is not kept")
 			// a kept pointer record is materialised before older records go away
 			c.Check(len(w.callsMatching(f, `\.Set\(state\.calcValidatorsKey\(`)) == 1 && len(w.callsMatching(f, `\.Set\(state\.calcConsensusParamsKey\(`)) == 1, fk+" :: kept pointer records are rewritten as full records", w.pos(f.Pos()), "Set(validators) and Set(params) for kept heights", "kept records are no longer materialised")
-			c.Check(c.ge().ensures(f, guardRe("final batch written", `^nil\(.*\.WriteSync\(\)\)$`), 0), fk+" :: success only after the final batch is written", w.pos(f.Pos()), "guarded", "PruneStates can succeed without writing the final batch")
+			c.Check(c.ge().ensures(f, guardRe("final batch written", `^nil\(.*\.WriteSync\(\)\)$`), 2), fk+" :: success only after the final batch is written", w.pos(f.Pos()), "guarded", "PruneStates can succeed without writing the final batch")
 		}
 	})
 }
